@@ -189,18 +189,33 @@ func run(c *mc.Ctx) {
 		t0 = time.Now()
 	}
 	// ---------------------------------------------------------------- alphabets
-	s.elems = ptalph.Elements(c.Seed, c.Pick(2, 3))
+	s.elems = ptalph.Elements(c.Seed, c.Pick(2, 3)) // reference side only
+	dirtyRef := ptalph.Known("dirty", ptalph.Generic(c.Seed, 9), 6).P
 	for i, e := range s.elems {
 		s.tors = append(s.tors, e.HasTorsion())
 		if e.Name == "B" {
 			s.baseIdx = i
 		}
-		for r := 0; r < ptalph.NumReps; r++ {
-			s.pts = append(s.pts, &lpt{e: i, rep: r, P: ptalph.Rep(c.Seed, e.P, r)})
-		}
 	}
-	// [g9]B + T6 rescaled: even torsion component, so that it is also a valid ristretto representative
-	dirtyPoint = ptalph.Rep(c.Seed, ptalph.Known("dirty", ptalph.Generic(c.Seed, 9), 6).P, 4)
+	// Library side of the alphabet (decode, Add, rescale).  If the tree under test panics or rejects a reference
+	// encoding here, that is a violation of the property (sub-space "alphabet"), not a harness error.
+	var buildPanic interface{}
+	func() {
+		defer func() { buildPanic = recover() }()
+		for i, e := range s.elems {
+			for r := 0; r < ptalph.NumReps; r++ {
+				s.pts = append(s.pts, &lpt{e: i, rep: r, P: ptalph.Rep(c.Seed, e.P, r)})
+			}
+		}
+		// [g9]B + T6 rescaled: even torsion component, so that it is also a valid ristretto representative
+		dirtyPoint = ptalph.Rep(c.Seed, dirtyRef, 4)
+	}()
+	if buildPanic != nil {
+		c.Seq("alphabet", 1, func(w *mc.W, i int) {
+			w.Fail("point-alphabet/panic", fmt.Sprintf("building the point alphabet (UnmarshalBinary of reference encodings, Add, rescaling) failed in the library: %v", buildPanic), nil)
+		})
+		return
+	}
 	s.full = alph.Scalars(c.Seed, false)
 	coreVals := alph.Scalars(c.Seed, true)
 	pos := map[string]int{}
@@ -614,6 +629,8 @@ func run(c *mc.Ctx) {
 	lap("msm-small-ristretto")
 	s.msmSpecial(c, evenPts)
 	lap("msm-special")
+	s.reuse(c)
+	lap("reuse")
 	// ---------------------------------------------------------------- (v) multiscalar at the algorithm thresholds
 	s.large(c)
 	lap("msm-large")
